@@ -762,6 +762,17 @@ func genEndpoint(r *rng, u *universe, o *caseOpts) ([]*gtier, []*gprofile) {
 			}
 			cur.pols = append(cur.pols, p)
 		}
+		// now and then a tier whose policies are ALL staged: it must be skipped, end-of-tier action included
+		if o.feat != "default-unset" && r.chance(15) {
+			for _, g := range tr.groups {
+				for _, p := range g.pols {
+					if !p.staged {
+						p.id.Kind = "Staged" + p.id.Kind
+						p.staged = true
+					}
+				}
+			}
+		}
 		// a third of the tiers with >= 2 policies: the first enforced policy opens with a Pass (or Allow / Deny) rule
 		// on one protocol and the next enforced policy decides the same traffic differently, so that "pass ends the
 		// tier" / "first verdict wins" are exercised by the probe aimed at that protocol
